@@ -108,7 +108,10 @@ Check(r) ==
          ELSE IF r.res = "err" /\ a THEN Flag(r, IF r.has_ref THEN "display.fixpoint" ELSE "reject.valid")
          ELSE IF (r.res = "ok") # b.ok THEN Flag(r, "verdict")
          \* both reject: are the locations the same?  (a private detail: reported as err.spans, owned by no property)
-         ELSE IF ~b.ok THEN (IF b.at # r.err_spans THEN Flag(r, "err.spans") ELSE TRUE)
+         ELSE IF ~b.ok THEN (IF b.at # r.err_spans THEN Flag(r, "err.spans")
+                             \* ... and the kind of error (equally private; err.kind, owned by no property)
+                             ELSE IF "err_kind" \in DOMAIN r /\ r.err_kind # "" /\ r.err_kind # b.err THEN Flag(r, "err.kind")
+                             ELSE TRUE)
          ELSE IF b.header # r.dump.signals THEN Flag(r, "ast.header")
          ELSE IF NoLines(b.stmts) # NoLines(r.dump.stmts) THEN Flag(r, "ast")
          ELSE IF b.stmts # r.dump.stmts THEN Flag(r, "ast.lines")
